@@ -153,6 +153,17 @@ INPUTS = [b"\x1b[1;2R", b"\x1b[5;10R", b"\x1b[M !!", b"\x1b[M#+5", b"a", b"\r\n"
 
 
 def history(rng, nops, blink=True, graphic=True, sized=True, ops_weights=None, behbits=None, wild=False, inputs=False):
+    """returns the script line (without oracle config); one manipulator in eight is a named object streamed as an lvalue"""
+    line = _history(rng, nops, blink, graphic, sized, ops_weights, behbits, wild, inputs)
+    parts = line.split(" ; ")
+    for k in range(1, len(parts)):
+        w0 = parts[k].split(" ", 1)[0]
+        if w0 in ("mv", "ti", "hc", "sc", "sv", "rs", "er", "me", "md", "nb", "ab", "re", "da", "we", "ws") and rng.random() < 0.125:
+            parts[k] = "lv " + parts[k]
+    return " ; ".join(parts)
+
+
+def _history(rng, nops, blink=True, graphic=True, sized=True, ops_weights=None, behbits=None, wild=False, inputs=False):
     """returns the script line (without oracle config)"""
     if behbits is None:
         # bits 0-4: the five flags the library consults; bits 5-11: the seven it declares but ignores (non-default values)
@@ -288,7 +299,7 @@ def short_histories_b(maxlen, cfgs):
 def multi_history(rng, nops, ops_weights=None, sized=True):
     """an `M` script: the operations of one history streamed as THE SAME objects to two or three terminals whose
     capability flags differ (mouse and window-title flags in particular)"""
-    line = history(rng, nops, sized=sized, ops_weights=ops_weights, inputs=False)
+    line = _history(rng, nops, sized=sized, ops_weights=ops_weights, inputs=False)
     head, _, tail = line.partition(" ; ")
     n = rng.choice([2, 2, 3])
     caps = [0, 1, 2, 3, 4, 8, 12, 5, 10, 15, 16, 31]
